@@ -1065,6 +1065,10 @@ class Engine:
             res = NONE_VAL
         else:
             res = fresh_val(f"res.{con.short}", con.result)
+        if isinstance(res.ty, TList) and getattr(con, "result_zero_based", False):
+            # the callee proves `res.lo == 0` (clause zero-based); recording it in the list map keeps the
+            # element terms free of offset arithmetic
+            set_list(s, res.ty.elem, res.z, lo=z3.IntVal(0))
         nvals = dict(args)
         for gname, gty in (getattr(con, "ghost_locals", None) or {}).items():
             nvals[gname] = fresh_val(f"{gname}.{con.short}", gty)
@@ -1945,13 +1949,19 @@ class Engine:
         v = NS(s, {})
         for label, f in self.call_inv(spec, v, e_ns):
             s.assume(f)
+        scoped_hints = {}
         if spec.hints:
             # lemma instances (cut rule): each hint is proved on its own - from the definitional facts only,
-            # no path condition - and then used
-            for hi, f in enumerate(spec.hints(v)):
+            # no path condition - and then used: everywhere (list) or only for the invariant conjuncts named (dict)
+            hs = spec.hints(v)
+            flat = [(None, f) for f in hs] if isinstance(hs, (list, tuple)) else [(lbl, f) for lbl, fs in hs.items() for f in fs]
+            for hi, (lbl, f) in enumerate(flat):
                 if not self.discovery:
                     self.obligations.append(Obligation(self.fn.short, f"hint:loop{ordinal}.hint[{hi}]@L{line}", "hint", [], f, line, self.axioms))
-                s.assume(f)
+                if lbl is None:
+                    s.assume(f)
+                else:
+                    scoped_hints.setdefault(lbl, []).append(f)
         # frame of the heap maps: proved as part of the invariant (entry trivially; back edge below)
         frame_fs = self.frame_formulas(s, entry, mod_maps, frame_allow)
         for _, f in frame_fs:
@@ -1975,7 +1985,13 @@ class Engine:
                     advance(s2)
                     v2 = NS(s2, {})
                     for label, f in self.call_inv(spec, v2, e_ns):
-                        self.oblige(s2, f"loop{ordinal}.inv[{label}].preserved", "inv-step", f, line)
+                        if label in scoped_hints and not self.discovery:
+                            s2h = s2.clone()
+                            for hf in scoped_hints[label]:
+                                s2h.assume(hf)
+                            self.oblige(s2h, f"loop{ordinal}.inv[{label}].preserved", "inv-step", f, line)
+                        else:
+                            self.oblige(s2, f"loop{ordinal}.inv[{label}].preserved", "inv-step", f, line)
                     for label, f in self.frame_formulas(s2, entry, mod_maps, frame_allow):
                         self.oblige(s2, f"loop{ordinal}.frame[{label}].preserved", "frame", f, line)
                     if var0 is not None:
